@@ -11,6 +11,7 @@ import Bpp.BindingThm
 import Bpp.NonceThm
 import Bpp.TotalityThm
 import Bpp.ApiThm
+import Bpp.LifecycleThm
 /-! # Property theorems
 
 Only the property statements live here, one block per C-id, each about the **executable** model functions of
@@ -591,5 +592,28 @@ open Model.Api in
     completed read returns `derive` and the cell only ever holds `derive`. -/
 theorem C18_once (derive threads : ℕ) (sched : List ℕ) : ApiThm.Inv derive (runCell derive (init threads) sched) :=
   ApiThm.once_cell_deterministic derive threads sched
+
+/-! ## C20 Zeroisation (life-cycle model `Model.Lifecycle`; what the compiled program allocates is observed by the
+allocator run at opt-level 0 — partial) -/
+
+open Model.Lifecycle in
+/-- **C20 (wiped).** In the repaired flow no secret-bearing heap buffer of `prove` is released un-wiped. -/
+theorem C20_prove_wiped (seeded : Bool) (m t κ : ℕ) : unwiped (proveBufs true seeded m t κ) = 0 :=
+  LifecycleThm.prove_all_wiped seeded m t κ
+
+open Model.Lifecycle in
+theorem C20_recover_wiped (t κ : ℕ) : unwiped (recoverBufs true t κ) = 0 := LifecycleThm.recover_all_wiped t κ
+
+open Model.Lifecycle in
+/-- **C20 (number of seed derivations).** A seeded prove, and each mask recovery, derive `t(3 + 2κ)` nonces from the
+    seed (α, d, η: t each; dL, dR: t per round); `r`, `s` are never seed-derived. -/
+theorem C20_seed_derivations (t κ : ℕ) : seedDerivations true t κ = t * (3 + 2 * κ) ∧ seedDerivations false t κ = 0 :=
+  LifecycleThm.seedDerivations_eq t κ
+
+open Model.Lifecycle in
+/-- **C20 (the repaired defect, recognisable if it returns).** -/
+theorem C20_prefix_count (m t κ : ℕ) :
+    unwiped (proveBufs false true m t κ) = t * (3 + 2 * κ) ∧ unwiped (recoverBufs false t κ) = t * (3 + 2 * κ) :=
+  LifecycleThm.prefix_leak_count m t κ
 
 end Bpp
